@@ -175,8 +175,8 @@ def gen_case(rng, idx):
                 ss["gugg"] = (round(rng.uniform(-1.5, 3.0), 2), round(rng.uniform(-1.0, 1.5), 2))
             for c in comps:
                 chosen.pop(c, None)
-            if not chosen:
-                p = rng.choice(common)
+            while not chosen:
+                p = rng.choice(common or phases)
                 if p[0] not in comps:
                     chosen[p[0]] = p
     elements = set()
@@ -373,6 +373,33 @@ def gen_case(rng, idx):
                                    "  -comp2 %s %s" % (s2["comps"][1][0], fmt(s2["comps"][1][1])),
                                    "  -Gugg_nondim %s %s" % (fmt(s2["gugg"][0]), fmt(s2["gugg"][1]))]
             ss_stages.append(s2)
+    # several reaction steps, reversing direction (add then remove a reactant, temperature up and down), with
+    # INCREMENTAL_REACTIONS true (each step starts from the previous one) or false (each step starts from the definitions)
+    has = lambda kw: any(l == kw for l in lines)
+    nsteps, incremental = 1, False
+    if rel_ex is None and rel_sf is None and rng.random() < 0.45:
+        if not has("REACTION 1") and not has("REACTION_TEMPERATURE 1") and rng.random() < 0.5:
+            extra_defs += ["REACTION_TEMPERATURE 1", " %s" % fmt(temp)]
+        if has("REACTION 1") or has("REACTION_TEMPERATURE 1") or "REACTION_TEMPERATURE 1" in extra_defs:
+            nsteps = rng.choice([2, 2, 3])
+            incremental = rng.random() < 0.6
+            if has("REACTION 1"):
+                k = lines.index("REACTION 1")
+                a = float(lines[k + 2].split()[0])
+                amts = [a]
+                for _ in range(nsteps - 1):
+                    if incremental:
+                        amts.append(float(fmt((-1 if rng.random() < 0.6 else 1) * a * rng.uniform(0.3, 1.0))))
+                    else:
+                        amts.append(float(fmt(a * rng.uniform(0.1, 3.0))))
+                lines[k + 2] = " " + " ".join(fmt(x) for x in amts) + " moles"
+            tl = lines if has("REACTION_TEMPERATURE 1") else (extra_defs if "REACTION_TEMPERATURE 1" in extra_defs else None)
+            if tl is not None and (not has("REACTION 1") or rng.random() < 0.6):
+                k = tl.index("REACTION_TEMPERATURE 1")
+                t0 = float(tl[k + 1].split()[0])
+                temps = [t0] + [round(rng.uniform(5, 85), 1) for _ in range(nsteps - 1)]
+                tl[k + 1] = " " + " ".join(fmt(x) for x in temps)
+            extra_defs.append("INCREMENTAL_REACTIONS %s" % ("true" if incremental else "false"))
     if extra_defs:
         k = lines.index("SELECTED_OUTPUT 1")
         lines[k:k] = extra_defs
@@ -395,7 +422,7 @@ def gen_case(rng, idx):
             lines += ["SAVE solid_solutions %d" % num, "DUMP", " -solid_solutions %d" % num]
         lines.append("END")
     return {"id": "c%05d" % idx, "db": db, "text": "\n".join(lines) + "\n", "flags": ["dump"] if ss else [],
-            "meta": {"pps": pps, "stages": stages, "ss_stages": ss_stages, "exch": exch, "surf": surf, "ss": ss, "hp": hp, "temp": temp}}
+            "meta": {"pps": pps, "stages": stages, "ss_stages": ss_stages, "nsteps": nsteps, "incremental": incremental, "exch": exch, "surf": surf, "ss": ss, "hp": hp, "temp": temp}}
 
 
 
@@ -503,6 +530,17 @@ def corpus():
         meta = {"pps": pr, "exch": None, "surf": None, "ss": None, "hp": False, "temp": 25.0}
         text += _punch(pr)
         out.append({"id": "corpus-restrictions-" + dbn, "db": dbn, "text": text, "flags": [], "meta": meta})
+    # several reaction steps with INCREMENTAL_REACTIONS true: every step starts from the previous one, and the restrictions
+    # refer to the amounts at the START of each step (CO2 added then removed; temperature 25 -> 5 -> 90 C)
+    pc = [_pp("Calcite", 0, 0.01, "dissolve_only"), _pp("Gypsum", 0, 0.002, "precipitate_only")]
+    text = ("SOLUTION 1\n temp 25\n pH 7 charge\n Na 1\n Cl 1\n Ca 1\n S(6) 1\nREACTION 1\n CO2 1\n 0.004 -0.004 moles\n"
+            "EQUILIBRIUM_PHASES 1\n Calcite 0 0.01 dissolve_only\n Gypsum 0 0.002 precipitate_only\nINCREMENTAL_REACTIONS true\n")
+    meta = {"pps": pc, "stages": [pc], "nsteps": 2, "incremental": True, "exch": None, "surf": None, "ss": None, "hp": False, "temp": 25.0}
+    out.append({"id": "corpus-steps-co2", "db": "phreeqc.dat", "text": text + _punch(pc), "flags": [], "meta": meta})
+    text = ("SOLUTION 1\n temp 25\n pH 6 charge\n Na 1\n Cl 1\n C(4) 5\n Ca 1\n S(6) 1\nREACTION_TEMPERATURE 1\n 25 5 90\n"
+            "EQUILIBRIUM_PHASES 1\n Calcite 0 0.01 dissolve_only\n Gypsum 0 0.002 precipitate_only\nINCREMENTAL_REACTIONS true\n")
+    meta = {"pps": pc, "stages": [pc], "nsteps": 3, "incremental": True, "exch": None, "surf": None, "ss": None, "hp": False, "temp": 25.0}
+    out.append({"id": "corpus-steps-temperature", "db": "phreeqc.dat", "text": text + _punch(pc), "flags": [], "meta": meta})
     # finding F-C03-2: a phase whose element is absent keeps the reaction written for an EARLIER model (minimised from the
     # thorough run): Vivianite (P) dissolves a little in calculation 1; calculation 2 uses the P-free solution again with
     # Vivianite precipitate_only (so no P is added): its whole amount is lost
@@ -642,7 +680,7 @@ def build_case(meta, row, init_rows=None, dump=None, more_rows=()):
             if not (_num(m) and _num(s)):
                 return None
             pps.append("PP %s %s %s %s %s" % (KIND[p["kind"]], q(p["target"]), q(p["init"]), q(m), q(s)))
-            items.append(("pp", p["name"] + " [follow-up calculation]", p["kind"], p["target"], p["init"], m, s))
+            items.append(("pp", p["name"] + p.get("label", " [follow-up calculation]"), p["kind"], p["target"], p["init"], m, s))
         for what, mkey, dest in (("exch", "exch", exs), ("surf", "surf", sfs)):
             mm = meta[mkey]
             if not mm or mm.get("mode") == "related":
@@ -704,7 +742,7 @@ def build_case(meta, row, init_rows=None, dump=None, more_rows=()):
         ssm = ssm or meta["ss"]
         if not ssm:
             continue
-        r = ss_observations(ssm, rows_all[st], parse_dump_ss(dump, ssm.get("num", 1)) if (st == 0 or redefined) else None,
+        r = ss_observations(ssm, rows_all[st], parse_dump_ss(dump, ssm.get("num", 1)) if ((st == 0 or redefined) and not ssm.get("nodump")) else None,
                             " [follow-up calculation]" if st > 0 else "")
         if r is None:
             return None
@@ -787,7 +825,7 @@ def finding_key(job, meta, bad):
     # signature of F-C03-2 only: in a LATER calculation of a run a precipitate_only phase whose element is not in the
     # system (SI reported as -99.99 / -999: "Element not present") ends below its initial amount
     if bad and len((meta.get("stages") or [1])) > 1 and all(
-            b[0] == "pp:precipitate_only" and len(b) > 2 and b[2][1].endswith("[follow-up calculation]")
+            b[0] == "pp:precipitate_only" and len(b) > 2 and "follow-up calculation" in b[2][1]
             and b[2][5] < b[2][4] and b[2][6] <= -99.0 for b in bad):
         return F2_KEY
     return "input:" + hashlib.sha256((job["db"] + "\n" + job["text"]).encode()).hexdigest()[:16]
@@ -827,9 +865,52 @@ def rows_by_state(res):
     return react, init
 
 
+def flatten_steps(meta, react):
+    """meta with one `stages` / `ss_stages` entry per selected-output row (calculation x reaction step).  The reference
+    amount of dissolve_only / precipitate_only in a step is the amount at the START of that step: the definition for the
+    first step of a calculation and for every step when INCREMENTAL_REACTIONS is false, the end of the previous step otherwise."""
+    nsteps = meta.get("nsteps", 1)
+    stages = meta.get("stages") or [meta["pps"]]
+    ss_stages = meta.get("ss_stages") or [meta["ss"]] * len(stages)
+    if nsteps == 1:
+        return meta
+    flat, ssf = [], []
+    r = 0
+    for si, stage in enumerate(stages):
+        for t in range(nsteps):
+            if r >= len(react):
+                break
+            lab = " [%sstep %d]" % ("follow-up calculation, " if si > 0 else "", t + 1)
+            pk = []
+            for k, p in enumerate(stage):
+                p2 = dict(p)
+                p2["label"] = lab
+                if meta.get("incremental") and t > 0:
+                    prev = react[r - 1].get("eq%d" % k)
+                    if _num(prev):
+                        p2["init"] = prev
+                pk.append(p2)
+            flat.append(pk)
+            ssm = ss_stages[si] if si < len(ss_stages) else None
+            base = ssm if ssm is not None else (meta["ss"] if (si == 0) else None)
+            if base is not None:
+                b2 = dict(base)
+                if t < nsteps - 1:
+                    b2["nodump"] = True
+                ssf.append(b2)
+            else:
+                ssf.append(None)
+            r += 1
+    m2 = dict(meta)
+    m2["stages"] = flat
+    m2["ss_stages"] = ssf
+    m2["pps"] = flat[0]
+    return m2
+
+
 def evaluate(ctx, jobs):
     res = vlib.run_inputs(jobs, timeout_each=30, workers=min(6, vlib.NCPU))
-    stats = {"run": 0, "error": 0, "timeout": 0, "no_row": 0, "checked": 0, "with_stored_ss": 0, "model_reused": 0, "ss_redefined": 0, "partial": 0}
+    stats = {"run": 0, "error": 0, "timeout": 0, "no_row": 0, "checked": 0, "with_stored_ss": 0, "model_reused": 0, "ss_redefined": 0, "partial": 0, "multi_step": 0, "incremental": 0}
     terms, keep = [], []
     for j in jobs:
         r = res.get(j["id"]) or {}
@@ -837,7 +918,7 @@ def evaluate(ctx, jobs):
         if r.get("timeout") or r.get("crash"):
             stats["timeout"] += 1
             continue
-        nst = len(j["meta"].get("stages") or [1])
+        nst = len(j["meta"].get("stages") or [1]) * j["meta"].get("nsteps", 1)
         if "dberr" in r:
             stats["error"] += 1
             continue
@@ -849,11 +930,12 @@ def evaluate(ctx, jobs):
                 stats["partial"] += 1
                 j = dict(j)
                 j["meta_full"] = j["meta"]
-                m2 = dict(j["meta"])
-                m2["stages"] = m2["stages"][:len(react)]
-                if m2.get("ss_stages"):
-                    m2["ss_stages"] = m2["ss_stages"][:len(react)]
-                j["meta"] = m2
+                if j["meta"].get("nsteps", 1) == 1:
+                    m2 = dict(j["meta"])
+                    m2["stages"] = m2["stages"][:len(react)]
+                    if m2.get("ss_stages"):
+                        m2["ss_stages"] = m2["ss_stages"][:len(react)]
+                    j["meta"] = m2
                 nst = len(react)
             else:
                 stats["error"] += 1          # run ended with ERROR: outside the premises of the property
@@ -862,6 +944,10 @@ def evaluate(ctx, jobs):
             stats["no_row"] += 1
             continue
         row = react[0]
+        if j["meta"].get("nsteps", 1) > 1:
+            j = dict(j)
+            j.setdefault("meta_full", j["meta"])
+            j["meta"] = flatten_steps(j["meta"], react)
         bc = build_case(j["meta"], row, init_rows, r.get("dump"), react[1:])
         if bc is None:
             stats["no_row"] += 1
@@ -872,8 +958,10 @@ def evaluate(ctx, jobs):
     for (j, items, row), ok in zip(keep, verdicts):
         stats["checked"] += 1
         stats["with_stored_ss"] += any(it[0] == "ssx" for it in items)
-        stats["model_reused"] += len(j["meta"].get("stages") or [1]) > 1
-        stats["ss_redefined"] += any(x is not None for x in (j["meta"].get("ss_stages") or [None])[1:])
+        stats["model_reused"] += len(j.get("meta_full", j["meta"]).get("stages") or [1]) > 1
+        stats["multi_step"] += j["meta"].get("nsteps", 1) > 1
+        stats["incremental"] += bool(j["meta"].get("nsteps", 1) > 1 and j["meta"].get("incremental"))
+        stats["ss_redefined"] += any(x is not None for x in (j.get("meta_full", j["meta"]).get("ss_stages") or [None])[1:])
         m = j["meta"]
         fp = [j["db"], len(m["pps"]), sorted(p["kind"] for p in m["pps"]), (m["exch"] or {}).get("mode"), (m["surf"] or {}).get("mode"), bool(m["ss"]),
               len(m.get("stages") or [1]), [it[5] > 0 for it in items if it[0] == "pp"]]
@@ -910,7 +998,7 @@ def run(ctx):
     if not ok:
         n = max(n, 240)       # a proof about the regenerated code broke: search harder for a concrete failing input
     jobs = corpus() + [gen_case(ctx.rng, i) for i in range(n)]
-    stats = {"run": 0, "error": 0, "timeout": 0, "no_row": 0, "checked": 0, "with_stored_ss": 0, "model_reused": 0, "ss_redefined": 0, "partial": 0}
+    stats = {"run": 0, "error": 0, "timeout": 0, "no_row": 0, "checked": 0, "with_stored_ss": 0, "model_reused": 0, "ss_redefined": 0, "partial": 0, "multi_step": 0, "incremental": 0}
     B = 400
     for i in range(0, len(jobs), B):
         st = evaluate(ctx, jobs[i:i + B])
